@@ -6,23 +6,16 @@ import fw, kernel_engine as ke, lockstep
 
 DRIVER = ("Extract/ExtractTetHex.v", "thdriver.ml", "thdriver")
 
-# Genuine defects of the unchanged tree met while building this component.  Until they are listed in
-# KNOWN_FINDINGS.json (status=known) they are reported in the evidence notes only; the model is faithful to them, so
-# the correspondence agrees (model says UB where the library crashes).  A signature is (property, operation, what).
-KNOWN_SIGNATURES = [
-    # C16: HexahedralMeshTopologyKernel::add_cell(halffaces, topologyCheck=true) on six live quad halffaces that are NOT a
-    # hexahedron: the re-ordering (HexahedralMeshTopologyKernel.cc:117-131) leaves InvalidHalfFaceHandle in the list; the
-    # base add_cell's check reads it as halfface 1 (face_handle(-1) == 0, odd) and, when that happens to close the
-    # surface, stores a cell containing -1 (without face incidences) / indexes incident_cell_per_hf_[-1] (with).
-    ("C16", "AddC", "model UB / library crash in the re-ordering path of the topology-checked hex add_cell"),
-    # C16: the same call accepts (through the re-ordering path) six quads that close up to a sphere which is not a cube and stores
-    # them in an order that violates the convention (first two halffaces share a vertex); hex_vertices then repeats a vertex.
-    ("C16", "AddC", "checked hex add_cell accepts a closed six-quad surface that is not a hexahedron (model agrees)"),
-    # C15: the topology-checked TetrahedralMeshTopologyKernel::add_cell(halffaces) accepts four triangles that are not a
-    # tetrahedron (two "pillows": six vertices); get_cell_vertices then returns {} and get_cell_vertices(c, v),
-    # halfface_opposite_vertex, the tet vertex iterator index that empty vector.
-    ("C15", "Q", "model UB / library crash of a tet query on a cell that is not a tetrahedron"),
-]
+# Findings of this component and their state:
+#   fixed in /repo (8e6fbe9, 50db8ef): hex checked add_cell with an invalid handle / a non-cube closed surface, tet checked
+#     add_cell accepting two pillows.  Their replays stay in the corpus (hex-invalid-handle-*, hex-non-cube-accepted,
+#     tet-two-pillows) and run first; NOTHING about them is suppressed: if they return, the model (which follows the fixed
+#     code) and the library diverge / the library crashes and the check reports it.
+#   known (KNOWN_FINDINGS.json id "collapse-props-parity", listed under C15 and C03): collapse_edge swaps halfedge / halfface
+#     property values once per rebuilt tet.  The token oracle in harness/run_tet.cc reports EXACTLY that outcome with the prefix
+#     below; every other deviation of a property value is an ordinary oracle failure.
+KNOWN_PREFIX = "KNOWN[collapse-props-parity]"
+KNOWN_ID = "collapse-props-parity"
 
 # ------------------------------------------------------------------------------------ corpus (always run first)
 
@@ -100,11 +93,18 @@ QTetAll
     # an interior vertex 0 inside the tetrahedron 1 2 3 4, collapsed onto the LAST vertex (the handle that the
     # immediate fast mode moves) and onto a middle one, in all four deletion modes, with property arrays on every kind
     "tet-collapse-modes": "\n".join(["Mesh tet"] + sum([[
-        "Clear 0", "EnDef %d" % d, "EnFast %d" % f, "AddVs 5"] + (["PCreate V 0 int", "PCreate C 0 int", "PCreate HF 0 int", "PCreate HE 0 int"] if (d, f, he) == (0, 0, 1) else []) + [
+        "Clear 0", "EnDef %d" % d, "EnFast %d" % f, "AddVs 5"] + (["PCreate V 0 int", "PCreate C 0 int", "PCreate HF 0 int", "PCreate HE 0 int", "PCreate HE 0 bool", "PCreate HF 0 bool",
+           "PCreate E 0 string", "PCreate F 0 int", "PCreate M 0 int", "PCreate V 0 bool", "PCreate C 0 bool"] if (d, f, he) == (0, 0, 1) else []) + [
         "@TAddCellV 1 4 0 3 1", "@TAddCellV 1 0 1 2 3", "@TAddCell4 1 0 1 4 2", "@TAddCellV 1 0 2 4 3",
         "@PSet V 0 0 10", "@PSet V 0 1 11", "@PSet V 0 2 12", "@PSet V 0 4 14", "@PSet C 0 0 20", "@PSet C 0 3 23",
-        "@PSet HF 0 0 30", "@PSet HF 0 5 35", "@PSet HE 0 1 41", "@PSet HE 0 6 46",
+        "@PSet HF 0 0 30", "@PSet HF 0 5 35", "@PSet HE 0 1 41", "@PSet HE 0 6 46"] +
+        ["@PSet HE 1 %d 1" % i for i in range(0, 20, 1)] + ["@PSet HF 1 %d 1" % i for i in range(0, 14, 1)] +
+        ["@PSet V 1 %d 1" % i for i in range(5)] + ["@PSet C 1 %d 1" % i for i in range(4)] + ["@PSet E 0 3 7", "@PSet F 0 2 9", "@PSet M 0 0 5",
         "QTetAll", "@TCollapse %d" % he, "QTetAll", "GC", "QTetAll"] for d in (0, 1) for f in (0, 1) for he in (1, 0, 7)], [])),
+    # KNOWN_FINDINGS "collapse-props-parity": two tets sharing the face (0,2,4), collapse 0 -> 1 along a free edge; the
+    # halfedges on the two shared edges at vertex 0 are swapped twice (values dropped), the unshared ones once (carried)
+    "tet-collapse-props-parity": "\n".join(["Mesh tet", "AddVs 6", "@THalfEdge 0 1", "@TAddCellV 1 0 3 2 4", "@TAddCellV 1 0 4 2 5",
+        "PCreate HE 0 int"] + ["@PSet HE 0 %d %d" % (i, 100 + i) for i in range(20)] + ["@TCollapse 0"]),
 }
 
 HEX_CORPUS = {
@@ -272,8 +272,15 @@ class Runner:
             real_divs.append(d)
         ctx.cov["traces_validated_against_impl"] = kr.stats["scripts"] - len(real_divs)
         # 1. oracle failures on the real library: concrete failing inputs
+        listed_ids = {f.get("id") for f in fw.known_findings(pid)}
+        n_known = 0
         for of in kr.oracle_fails:
             if of["oracle"] != pid: continue
+            if of["what"].startswith(KNOWN_PREFIX) and KNOWN_ID in listed_ids:
+                n_known += 1
+                if n_known == 1:
+                    ctx.known.append("%s (script %s step %d): %s" % (KNOWN_ID, of["script"], of["step"], of["what"][len(KNOWN_PREFIX):].strip()))
+                continue
             lines = of.get("lines")
             ctx.violations.append({"kind": "input", "oracle": pid, "what": of["what"], "script_name": of["script"],
                                    "first_bad_step": of["step"], "script": lines,
@@ -289,18 +296,16 @@ class Runner:
         for d in [x for x in real_divs if x.component != "crash"][:5]:
             ctx.broken.append({"kind": "correspondence", "name": "lock-step model/impl, component %s" % (d.component or "Q"),
                                "detail": dict(d.as_dict(), script_lines=getattr(d, "lines", None))})
-        # known signatures (model UB == library crash)
-        listed = {f.get("id") for f in fw.known_findings(pid)}
+        if n_known: ctx.cov["known_finding_occurrences"] = {KNOWN_ID: n_known}
+        # model outcome UB == library crash: only reachable through out-of-contract mesh states of the malformed stream
+        # (e.g. add_cell(v0..v3) without vertex incidences); counted, not suppressed as a finding
         seen = {}
         for d in self.ub_agreements:
             o = op_of(d.model)
             seen[o] = seen.get(o, 0) + 1
         if seen:
             ctx.cov["model_UB_equals_library_crash"] = seen
-            msg = ("model outcome UB coincides with a crash of the library for operations %s (see KNOWN_SIGNATURES in "
-                   "lib/checks_tethex.py: a finding on the unchanged tree, the model is faithful to it)" % seen)
-            if listed: ctx.known.append(msg)
-            else: ctx.notes.append(msg)
+            ctx.notes.append("model outcome UB coincides with a crash of the library for operations %s" % seen)
 
     def fails(self, lines, pred):
         tmp = os.path.join(self.dir, "%s-shrink-%d.scripts" % (self.pid, os.getpid()))
@@ -330,9 +335,10 @@ class Runner:
         for v in ctx.violations[:1]:
             lines = v.get("script")
             if not lines or v.get("oracle") != pid: continue
-            tail = v["what"].split(":")[-1]
+            tail = v["what"].split(":")[0] if v["what"].startswith("collapse_edge property") else v["what"].split(":")[-1]
             def pred(divs, st):
-                return any(of["oracle"] == pid and of["what"].split(":")[-1] == tail for of in st["oracle_fails"])
+                return any(of["oracle"] == pid and not of["what"].startswith(KNOWN_PREFIX) and
+                           (of["what"].split(":")[0] == tail or of["what"].split(":")[-1] == tail) for of in st["oracle_fails"])
             try:
                 head = [l for l in lines[:1] if l.startswith("Mesh ")]
                 v["script_shrunk"] = self.ddmin(head, lines[len(head):], pred)
@@ -480,3 +486,53 @@ def ke_replay(ctx):
     os.makedirs(os.path.dirname(p), exist_ok=True)
     ke.write_scripts(p, {"replay": lines})
     return [p]
+
+
+# ------------------------------------------------------------------------------------ C03: property values across collapse_edge
+
+def collapse_props_part(ctx):
+    """Called by check_C03: property tokens (int / bool / string / ... on all seven kinds) across collapse_edge, through the
+    lock step (property lines 'P ...' of the extracted model vs. the library) and the impl-side token oracle of harness/run_tet.cc
+    (--oracle C03).  Oracle failures -> ctx.violations, divergences in property lines -> ctx.broken, the known signature
+    'collapse-props-parity' -> ctx.known if listed under C03.  Adds to ctx.cov evaluations / distinct_nontrivial, leaves the
+    obligations alone."""
+    build_models(ctx)
+    r = Runner(ctx, "C03", "run_tet", {k: TET_CORPUS[k] for k in ("tet-collapse-modes", "tet-collapse-props-parity")}, {"TCollapse"})
+    if not r.ok():
+        return r
+    r.run_corpus()
+    count = 16 if ctx.quick() else 200
+    for sd in ([ctx.seed] if ctx.quick() else [ctx.seed, ctx.seed + 1, ctx.seed + 2]):
+        r.run(r.generate(sd, count, ["tetprops"], 10 if ctx.quick() else 20, "cp"))
+    kr = r.kr
+    ctx.cov["evaluations"] += kr.stats["scripts"]
+    ctx.cov["distinct_nontrivial"] += len(kr.nontrivial)
+    ctx.cov["collapse_part"] = {"scripts": kr.stats["scripts"], "steps": kr.stats["steps"], "collapses": kr.stats["ops"].get("TCollapse", 0),
+                                "oracle_events": r.oracle_stats(),
+                                "rule": "tet scripts with property arrays of type int/bool/string/double/vec3d/vh on all seven entity kinds, filled with "
+                                        "distinct tokens, then collapses (link condition satisfied in immediate mode, arbitrary edges of clean "
+                                        "simplicial meshes in deferred mode) in all four deletion modes; every P line compared in lock step; token "
+                                        "oracle: every entity outside the merge keeps its value, rebuilt cells carry theirs, merged half-entities carry "
+                                        "own/carried value (the once-per-tet swap outcome is the known finding collapse-props-parity)"}
+    listed_ids = {f.get("id") for f in fw.known_findings("C03")}
+    n_known = 0
+    for of in kr.oracle_fails:
+        if of["oracle"] != "C03": continue
+        if of["what"].startswith(KNOWN_PREFIX) and KNOWN_ID in listed_ids:
+            n_known += 1
+            if n_known == 1:
+                ctx.known.append("%s (script %s step %d): %s" % (KNOWN_ID, of["script"], of["step"], of["what"][len(KNOWN_PREFIX):].strip()))
+            continue
+        ctx.violations.append({"kind": "input", "oracle": "C03", "what": of["what"], "script_name": of["script"],
+                               "first_bad_step": of["step"], "script": of.get("lines"),
+                               "replay_hint": "tet script: build/bin/san/run_tet --oracle C03 <script file>"})
+    for d in kr.divs:
+        if d.component == "crash":
+            if not d.model.rstrip().endswith("-> UB"):
+                ctx.violations.append({"kind": "input", "oracle": "sanitizer", "script_name": d.script, "first_bad_step": d.step,
+                                       "what": "the library crashed executing " + d.echo, "script": getattr(d, "lines", None)})
+        elif d.component.startswith("P"):
+            ctx.broken.append({"kind": "correspondence", "name": "lock-step model/impl across collapse_edge, component %s" % d.component,
+                               "detail": dict(d.as_dict(), script_lines=getattr(d, "lines", None))})
+    if n_known: ctx.cov["collapse_part"]["known_finding_occurrences"] = n_known
+    return r
